@@ -11,8 +11,11 @@ near-identical decoy, "plain"), the lookup is executed, and
        queries the same site builds for the benign identifier "plain": Coq lexes both (XPathLit.skeleton) and
        requires the same structure, with the identifier as the value of every string token that is "plain" in
        the benign query;
+       and, absolutely, that the identifier predicate constrains every branch of every union (XPathLit.covered);
   (ii) the objects returned are identified by a marker attribute read from the underlying lxml node (never through
-       odfdo getters): exactly the stored object, never the decoy, no exception.
+       odfdo getters): exactly the stored object, never the decoy, no exception.  Decoys of every element kind the
+       site's query can return are placed before and after the target; the target is also tried as each kind; and an
+       identifier that is not stored at all must find nothing.
 """
 import sys, os, json, random, itertools, time, signal, re
 from pathlib import Path
@@ -23,6 +26,10 @@ from lxml import etree
 PROP = "C14"
 MARK = "{urn:org:documentfoundation:names:experimental:office:xmlns:loext:1.0}verif-role"   # a namespace odfdo knows, so that attribute copying code is not disturbed
 ROLE_CODE = {"stored": 1, "decoy": 2, "plain": 3, "new": 4}
+
+
+def role_code(r):
+    return 2 if str(r).startswith("decoy") else ROLE_CODE.get(r, 0)
 SIGNIFICANT = set("\"'&<>[]()=, {}$@/|*:")
 LETTERS = "abcxyzABZ019_-."
 RICH = list("\"'&<>[]()=, é中{}$@/|*:") + ['"', "'", '"', "'"]   # quotes weighted
@@ -35,6 +42,7 @@ LAYER = {1: "query: the XPath text built for the identifier does not lex (unterm
          5: "lookup: an object stored under a different identifier was returned",
          6: "harness: the benign query of the site does not lex",
          7: "xml: the attribute value written is not read back as the identifier",
+         8: "query: the identifier predicate does not constrain every branch of a union (an object can be selected whatever its identifier)",
          9: "fidelity: query text differs from the model's although it denotes the same string (not an alarm)"}
 
 
@@ -129,9 +137,10 @@ def role_of(x):
     if isinstance(x, etree._Element):
         return x.get(MARK) or "other"
     s = str(x)
-    for r in ROLE_CODE:
-        if s == r or s == "role/" + r:
-            return r
+    if s.startswith("role/"):
+        s = s[5:]
+    if s in ROLE_CODE or s.startswith("decoy"):
+        return s
     return "other"
 
 
@@ -143,11 +152,18 @@ def roles(res):
     return [role_of(res)]
 
 
+def _mentions(code, const):
+    return any(c == const or (hasattr(c, "co_consts") and _mentions(c, const)) for c in code.co_consts)
+
+
 class Site:
     def __init__(self, key, attr, make, look, host="p", expect=("stored",), heavy=False, main=False):
         self.key, self.attr, self.make, self.look, self.host = key, attr, make, look, host
         self.expect, self.heavy, self.main = list(expect), heavy, main
         self.benign = None
+        self.benign_absent = None
+        self.kinds = []          # other element kinds (prefixed tags) the site's identifier query can return
+        self.needs_stored = _mentions(look.__code__, "stored")    # the lookup is a method of the stored object
 
 
 def build_sites(o):
@@ -459,20 +475,102 @@ def valid_xml_text(s):
         return False
 
 
-def run_case(o, site, ident, decoy, third="plain"):
-    """Store (ident, decoy, third) at the site, look ident up.  Returns a dict; 'rejected' when the API does not
-    accept the identifier."""
-    out = dict(site=site.key, ident=ident, decoy=decoy, third=third, rejected=False, raised=None, found=[], queries=[])
+def result_tags(query):
+    """prefixed tags named by the last step of every union branch of a query (harness-side, for generating decoys only)"""
+    q = re.sub(r'"[^"]*"|\'[^\']*\'', '""', query)
+    while re.search(r"\[[^\[\]]*\]", q):
+        q = re.sub(r"\[[^\[\]]*\]", "", q)
+    q = q.replace("(", " ").replace(")", " ")
+    tags = []
+    for b in q.split("|"):
+        m = re.search(r"([A-Za-z][\w-]*:[A-Za-z][\w.-]*)\s*$", b.strip())
+        if m and m.group(1) not in tags:
+            tags.append(m.group(1))
+    return tags
+
+
+def derive_kinds(o, site, queries):
+    """the element kinds other than the site's own that its identifier query can return"""
+    from odfdo.element import ODF_NAMESPACES as NSM
+    if site.make is None:
+        return []
+    tags = []
+    for q in queries:
+        if '"plain"' in q or "'plain'" in q:
+            for t in result_tags(q):
+                if t.split(":")[0] in NSM and t not in tags:
+                    tags.append(t)
+    try:
+        own = site.make("plain", "plain").tag
+    except Exception:
+        return []
+    if own not in tags:
+        return []           # the site does not return the object itself (ranges, text between marks ...)
+    return [t for t in tags if t != own]
+
+
+def retag(o, el, tag):
+    """the same element under another tag (lxml level): same attributes and children"""
+    from odfdo.element import ODF_NAMESPACES as NSM
+    import copy
+    n = node(el)
+    pfx, local = tag.split(":")
+    new = etree.Element("{%s}%s" % (NSM[pfx], local), nsmap=n.nsmap)
+    for k, v in n.attrib.items():
+        new.set(k, v)
+    new.text = n.text
+    for c in n:
+        new.append(copy.deepcopy(c))
+    return o.Element.from_tag(new)
+
+
+ABSENT_OK = (KeyError, ValueError)      # "not found" answers of lookups that do not return None
+
+
+def run_case(o, site, ident, decoy, third="plain", mode="present", kind=0, variant=0):
+    """Store, in document order: decoys (one of every kind the site can return) / the identifier (as kind `kind`) /
+    decoys of every kind again / the benign object; then look the identifier up.  mode "absent": the identifier is
+    not stored at all and the lookup must return nothing.  Returns a dict; 'rejected' when the API does not accept
+    the identifier."""
+    out = dict(site=site.key, ident=ident, decoy=decoy, third=third, mode=mode, as_kind=kind, rejected=False, raised=None, found=[], queries=[])
     if not ident or not valid_xml_text(ident):
         out["rejected"] = True; out["why"] = "empty or not XML text"; return out
-    objs = []
-    for role, name in (("stored", ident), ("decoy", decoy), ("plain", third)):
+    if mode == "absent" and site.needs_stored:
+        out["rejected"] = True; out["why"] = "the lookup is a method of the stored object"; return out
+    if kind > len(site.kinds):
+        out["rejected"] = True; out["why"] = "no such kind at this site"; return out
+    kinds = [None] + list(site.kinds)
+    # identifiers of the decoys: before / after the target, per kind
+    dnames, v = [], variant
+    for _ in range(2 * len(kinds)):
+        d = decoy if not dnames else decoy_of(ident, v)
+        tries = 0
+        while (d in dnames or d == ident or d == third) and tries < 8:
+            v += 1; tries += 1; d = decoy_of(ident, v)
+        if d in dnames or d == ident or d == third:
+            d = ident + "x" * (len(dnames) + 1)
+        dnames.append(d); v += 1
+    plan = []
+    for k, kt in enumerate(kinds):
+        plan.append(("decoy" if k == 0 else "decoy-b%d" % k, dnames[2 * k], kt))
+    plan.append(("stored", ident, kinds[kind]))
+    for k, kt in enumerate(kinds):
+        plan.append(("decoy-a%d" % k, dnames[2 * k + 1], kt))
+    plan.append(("plain", third, None))
+    objs, seen_names = [], []
+    for role, name, kt in plan:
         if name is None:
             continue
         if site.make is None:
-            objs.append((role, name)); continue
+            if role == "stored" and mode == "absent":
+                continue
+            if role != "stored" and (name == ident or name in seen_names):
+                continue
+            seen_names.append(name); objs.append((role, name)); continue
         try:
             el = limited(site.make, name, role)
+            if kt is not None:
+                el = retag(o, el, kt)
         except CallTimeout:
             raise
         except Exception as e:
@@ -486,12 +584,16 @@ def run_case(o, site, ident, decoy, third="plain"):
             if actual != ident:
                 out["normalised_from"] = ident
                 ident = actual; out["ident"] = actual
-        elif actual is None or actual == ident or any(actual == stored_name(site, e2) for _, e2 in objs):
+                objs = [(r, e2) for r, e2 in objs if stored_name(site, e2) != ident]
+            if mode == "absent":
+                continue
+        elif actual is None or actual == ident:
             continue
         objs.append((role, el))
     if ident == third:
         out["rejected"] = True; out["why"] = "normalises to the benign name"; return out
     out["stored_roles"] = [r for r, _ in objs]
+    out["layout"] = [(r, n if isinstance(n, str) else stored_name(site, n), None if isinstance(n, str) else n.tag) for r, n in objs]
     try:
         host = make_host(o, site, objs)
     except Exception as e:
@@ -504,7 +606,10 @@ def run_case(o, site, ident, decoy, third="plain"):
     except CallTimeout as e:
         out["raised"] = repr(e)
     except Exception as e:
-        out["raised"] = "%s: %s" % (type(e).__name__, str(e)[:200])
+        if mode == "absent" and isinstance(e, ABSENT_OK) and not isinstance(e, etree.Error):
+            out["absent_answer"] = "%s: %s" % (type(e).__name__, str(e)[:100])
+        else:
+            out["raised"] = "%s: %s" % (type(e).__name__, str(e)[:200])
     out["queries"] = dedupe(CAP)
     del CAP[:]
     return out
@@ -591,10 +696,19 @@ Fixpoint cmp_toks (v : str) (tq tb : list tok) : nat :=
       else if str_eqb x y then cmp_toks v tq' tb' else 2%nat
   | _, _ => 3%nat
   end.
+Definition is_plain_tok (t : tok) : bool := match t with TStr y => str_eqb y plain | _ => false end.
+(* 8: the query carries the identifier (its benign form has the literal plain) but some union branch is not
+   constrained by a predicate on it *)
 Definition chk_q (v q b : str) : nat :=
   match skeleton q with
   | None => 1%nat
-  | Some tq => match skeleton b with None => 6%nat | Some tb => cmp_toks v tq tb end
+  | Some tq => match skeleton b with
+               | None => 6%nat
+               | Some tb => match cmp_toks v tq tb with
+                            | O => if existsb is_plain_tok tb && negb (covered v tq) then 8%nat else 0%nat
+                            | k => k
+                            end
+               end
   end.
 Fixpoint chk_qs (v : str) (qs bs : list str) (raised : bool) : nat :=
   match qs, bs with
@@ -665,15 +779,22 @@ Definition chk_xml (c : str * str * str * bool) : nat :=
 
 
 def coq_case(res, site):
-    found = "([" + ";".join(str(ROLE_CODE.get(r, 0)) for r in res["found"]) + "] : list N)"
-    expect = [r for r in site.expect if r in res.get("stored_roles", site.expect)]
+    found = "([" + ";".join(str(role_code(r)) for r in res["found"]) + "] : list N)"
+    expect = expected_roles(site, res)
     expected = "([" + ";".join(str(ROLE_CODE[r]) for r in expect) + "] : list N)"
-    return "(%s, ([%s] : list str), B%d, %s, %s, %s)" % (cs(res["ident"]), ";".join(cs(q) for q in res["queries"]),
-                                           site.index, found, expected, "true" if res["raised"] else "false")
+    return "(%s, ([%s] : list str), B%s%d, %s, %s, %s)" % (cs(res["ident"]), ";".join(cs(q) for q in res["queries"]),
+                                           "A" if res.get("mode") == "absent" else "", site.index, found, expected, "true" if res["raised"] else "false")
+
+
+def expected_roles(site, res):
+    if res.get("mode") == "absent":
+        return []
+    return [r for r in site.expect if r in res.get("stored_roles", site.expect)]
 
 
 def site_defs(sites):
-    return "".join("Definition B%d : list str := [%s].\n" % (s.index, ";".join(cs(q) for q in (s.benign or []))) for s in sites)
+    return "".join("Definition B%d : list str := [%s].\nDefinition BA%d : list str := [%s].\n"
+                   % (s.index, ";".join(cs(q) for q in (s.benign or [])), s.index, ";".join(cs(q) for q in (s.benign_absent or []))) for s in sites)
 
 
 # ------------------------------------------------------------------------------------------ direct sites
@@ -745,7 +866,7 @@ def evaluate(o, sites, work):
     for w in work:
         if w["kind"] == "lookup":
             site = by_key[w["site"]]
-            res = run_case(o, site, w["ident"], w.get("decoy"))
+            res = run_case(o, site, w["ident"], w.get("decoy"), mode=w.get("mode", "present"), kind=w.get("as_kind", 0), variant=w.get("variant", 0))
             res["kind"] = "lookup"
             recs.append((w, res))
             if not res["rejected"]:
@@ -763,7 +884,7 @@ def evaluate(o, sites, work):
     for cases, checker, tag in ((lookup_cases, "chk", "c14"), (pred_cases, "chk_pred", "c14p"), (xml_cases, "chk_xml", "c14x")):
         if not cases:
             continue
-        bad, errs = common.run_shards(header, [t for _, t in cases], checker, tag, shard=max(50, min(250, len(cases) // 16 + 1)))
+        bad, errs = common.run_shards(header, [t for _, t in cases], checker, tag, shard=max(100, min(600, -(-len(cases) // 16))))      # one round of at most 16 coqc processes when possible
         errors += errs
         for j, code in bad.items():
             codes[cases[j][0]] = code
@@ -774,7 +895,7 @@ def evaluate(o, sites, work):
         code = codes.get(idx, 0)
         if errors and code == 0 and rec.get("kind") == "lookup" and not rec.get("rejected"):
             # the Coq evaluation broke: direct Python oracle of the property on the implementation's answer
-            exp = [r for r in by_key[rec["site"]].expect if r in rec.get("stored_roles", [])]
+            exp = expected_roles(by_key[rec["site"]], rec)
             if any(r not in exp for r in rec["found"]):
                 code = 5
             elif rec["raised"] or rec["found"] != exp:
@@ -786,7 +907,12 @@ def evaluate(o, sites, work):
 
 
 def key_of(rec):
-    return "%s/%s" % (rec["site"], ident_class(rec["ident"]))
+    extra = ""
+    if rec.get("mode") == "absent":
+        extra += "/identifier-not-stored"
+    if rec.get("as_kind"):
+        extra += "/stored-as-other-kind"
+    return "%s%s/%s" % (rec["site"], extra, ident_class(rec["ident"]))
 
 
 def shrink(o, sites, w, code, budget_rounds=8):
@@ -827,15 +953,23 @@ def run(tier, seed, replay=None):
         s.index = k
     by_key = {s.key: s for s in sites}
     errors = []
-    # benign run of every site: the queries it builds for "plain" (decoy "plaim", third object "other")
+    # benign run of every site: the queries it builds for "plain" (decoys "plaim"..., last object "other"); the
+    # kinds of element its identifier query can return are read off those queries, then the benign runs are redone
+    # with decoys of every kind; the same with the identifier not stored
     for s in sites:
         res = run_case(o, s, "plain", "plaim", third="other")
-        exp = [r for r in s.expect if r in res.get("stored_roles", [])]
-        if res["rejected"] or res["raised"] or res["found"] != exp:
-            errors.append("benign lookup fails at site %s: %r" % (s.key, res))
-            s.benign = res.get("queries") or []
-        else:
-            s.benign = res["queries"]
+        s.kinds = derive_kinds(o, s, res.get("queries") or [])
+        for kind in range(len(s.kinds), -1, -1):
+            res = run_case(o, s, "plain", "plaim", third="other", kind=kind)
+            exp = expected_roles(s, res)
+            if res["rejected"] or res["raised"] or res["found"] != exp:
+                errors.append("benign lookup fails at site %s (stored as kind %d of %r): %r" % (s.key, kind, s.kinds, res))
+        s.benign = res.get("queries") or []
+        if not s.needs_stored:
+            ra = run_case(o, s, "plain", "plaim", third="other", mode="absent")
+            if ra["rejected"] or ra["raised"] or ra["found"]:
+                errors.append("benign lookup of an identifier that is not stored fails at site %s: %r" % (s.key, ra))
+            s.benign_absent = ra.get("queries") or []
     corpus = []
     for f in sorted((common.ROOT / "corpus" / PROP).glob("*.json")):
         c = json.load(open(f))
@@ -858,15 +992,25 @@ def run(tier, seed, replay=None):
             if s.heavy:
                 ids = EDGE[::3] + rng.sample(shorter, 6 if quick else 40)
             elif s.main:
-                ids = EDGE + rng.sample(pool[len(EDGE):], 25 if quick else 500)
+                ids = EDGE + rng.sample(pool[len(EDGE):], 25 if quick else 350)
             else:
-                ids = (EDGE[s.index % 3::3] + rng.sample(shorter, 8)) if quick else (EDGE + rng.sample(shorter, 300))
+                ids = (EDGE[s.index % 3::3] + rng.sample(shorter, 8)) if quick else (EDGE + rng.sample(shorter, 200))
             if s.main and (not quick or s.key in ("get_table/name", "get_bookmark", "Manifest.get_media_type", "get_reference_mark/single",
                                                    "ReferenceMarkStart.referenced_text", "get_between/bookmarks")):
                 ids = small + ids; exhaustive_n += len(small)
             for i in ids:
                 v = rng.randrange(1000)
                 work.append(dict(kind="lookup", site=s.key, ident=i, decoy=decoy_of(i, v), variant=v))
+            # the identifier stored as each other kind of element the site's query can return
+            for kk in range(1, len(s.kinds) + 1):
+                for i in (ids[::2] if quick else ids):
+                    v = rng.randrange(1000)
+                    work.append(dict(kind="lookup", site=s.key, ident=i, decoy=decoy_of(i, v), variant=v, as_kind=kk))
+            # the identifier not stored at all: the lookup must return nothing
+            if not s.needs_stored:
+                for i in ["absent"] + (ids[s.index % 5::5] if quick else ids[s.index % 3::3]):
+                    v = rng.randrange(1000)
+                    work.append(dict(kind="lookup", site=s.key, ident=i, decoy=decoy_of(i, v), variant=v, mode="absent"))
         for k, i in enumerate(small + pool):
             work.append(dict(kind="pred", ident=i, k=k))
         for k, i in enumerate(small[:160] + pool[:len(EDGE) + (60 if quick else 800)]):
@@ -896,6 +1040,15 @@ def run(tier, seed, replay=None):
             errors.append("benign query of %s does not lex" % k)
         elif code:
             failing.append((w, rec, code))
+    # the lookup layer on its own (whatever the query layer said): wrong object / nothing / exception
+    lookup_layer = {"wrong object returned": 0, "stored object not returned or exception": 0}
+    for w, rec, code in results:
+        if rec.get("kind") == "lookup" and not rec.get("rejected"):
+            exp = expected_roles(by_key[rec["site"]], rec)
+            if any(r not in exp for r in rec["found"]):
+                lookup_layer["wrong object returned"] += 1; rec["lookup_layer"] = "an object with another identifier was returned"
+            elif rec["raised"] or rec["found"] != exp:
+                lookup_layer["stored object not returned or exception"] += 1; rec["lookup_layer"] = "the stored object was not returned"
     for d in lexer_disagree[:3]:
         errors.append("specification reader and libxml2 disagree on %r" % (d,))
     known = {e["key"]: e for e in common.known_findings(PROP)}
@@ -924,17 +1077,25 @@ def run(tier, seed, replay=None):
         payload = dict(layer=LAYER.get(code, str(code)), code=code, known_finding_key=None, key=key,
                        case=dict(w, ident=rec["ident"]), identifier_codepoints=[ord(c) for c in rec["ident"]],
                        impl=dict(queries=rec.get("queries") or rec.get("query"), found=rec.get("found"), raised=rec.get("raised"),
-                                 stored_roles=rec.get("stored_roles"), got=rec.get("got"), raw=rec.get("raw")),
+                                 stored_roles=rec.get("stored_roles"), layout=rec.get("layout"), lookup_layer=rec.get("lookup_layer", "right object"),
+                                 got=rec.get("got"), raw=rec.get("raw")),
                        benign_queries=by_key[rec["site"]].benign if rec["site"] in by_key else None,
                        other_failing_keys=len(groups), cases_failing_with_this_key=len(groups[key]))
         tag = re.sub(r"[^A-Za-z0-9]+", "_", key)[:60] + "-%d" % n_reported
+        if replay and Path(replay).stem.startswith("%s-%s-" % (PROP, seed)):
+            tag = Path(replay).stem[len("%s-%s-" % (PROP, seed)):]          # a replay rewrites its own file
         violations.append((common.write_replay(PROP, seed, tag, payload), False))
         n_reported += 1
     if replay and not failing and not errors:
         print("replay: no violation on this tree (code 0)")
     violations += common.proof_violation(PROP, seed, proofs, errors, bool(failing))
     done = [(w, rec, code) for w, rec, code in results if not rec.get("rejected")]
-    distinct = len({common.digest((rec["site"], rec["ident"])) for w, rec, code in done if significant(rec["ident"])})
+    distinct = len({common.digest((rec["site"], rec["ident"], rec.get("mode"), rec.get("as_kind"))) for w, rec, code in done if significant(rec["ident"])})
+    modes = {}
+    for w, rec, code in done:
+        if rec.get("kind") == "lookup":
+            m = "identifier not stored" if rec.get("mode") == "absent" else ("stored as another kind" if w.get("as_kind") else "stored")
+            modes[m] = modes.get(m, 0) + 1
     samples = []
     for w, rec, code in done:
         if rec.get("kind") == "lookup" and '"' in rec["ident"] and "'" in rec["ident"] and len(samples) < 3:
@@ -954,7 +1115,7 @@ def run(tier, seed, replay=None):
              "at the main sites and through make_xpath_query; every (site, identifier) stores identifier + near-identical decoy + 'plain' and looks the identifier up. "
              "non-trivial = identifier contains an XPath/XML-significant character; distinct = distinct (site, identifier actually stored)" % (len(EDGE), len(set(RICH)), 3 if tier == "quick" else 4),
         samples=samples, sites=len(sites) + 3, cases_per_site=hist_site, codes={str(k): v for k, v in sorted(hist_code.items())},
-        rejected_by_setter=rejected, fidelity_divergences=fidelity, lookups_without_captured_query=no_query,
+        lookup_layer_failures=lookup_layer, lookup_modes=modes, kinds_per_site={x.key: x.kinds for x in sites if x.kinds}, rejected_by_setter=rejected, fidelity_divergences=fidelity, lookups_without_captured_query=no_query,
         reader_vs_libxml2_disagreements=len(lexer_disagree), corpus_cases=len(corpus), failing_keys=sorted(groups),
         implementation_wall_s=round(TIMES.get("impl", 0), 1), coq_evaluation_wall_s=round(TIMES.get("coq", 0), 1),
         exhaustive=False)
